@@ -82,7 +82,7 @@ class Find(Engine):
     def rule(self, prop):
         return ("exhaustive (both tiers): every chain of 1-3 levels over 12 level kinds ({no spokfile, regular spokfile, directory "
                 "named spokfile} x {no other entry, one sorting before, one after, both}) and every chain of 4 levels over the 8 "
-                "reconnaissance kinds, x every start level x stop in {each level, an unrelated directory next to each level, /}, "
+                "reconnaissance kinds (thorough: over all 12), x every start level x stop in {each level, an unrelated directory next to each level, /}, "
                 "each built as a real temp tree, file.Find called with an iteration budget and under the supervisor's timeout; "
                 "corpus (D11 witnesses) first; non-trivial = distinct configuration")
 
